@@ -183,7 +183,7 @@ Theorem C12_rt_outside U cenc cdec qerr newref (u : U) d :
 Proof. exact (rt_outside U cenc cdec qerr newref u d). Qed.
 
 (** * envelope: system flag, sender, receiver and payload survive; an absent ref travels as two empty
-    strings and is read back as absent *)
+    strings and is read back as absent.  [valid_ref]: a present ref's strings fit their length prefix *)
 Theorem C12_envelope U hc cenc cdec qerr newref (e : envelope U) rest :
   valid_ref (e_sender U e) /\ valid_ref (e_receiver U e) /\
   ty_msg U (e_msg U e) /\ valid_msg U hc cenc cdec qerr newref (e_msg U e) ->
@@ -196,10 +196,12 @@ Theorem C12_envelope U hc cenc cdec qerr newref (e : envelope U) rest :
             o_msg := e_msg U e |}, rest).
 Proof. exact (envelope_rt U hc cenc cdec qerr newref e rest). Qed.
 Theorem C12_envelope_refs (r : eref) :
-  valid_ref r -> r <> RRef [] [] -> ref_of_strs (fst (strs_of r)) (snd (strs_of r)) = r.
+  r <> RTypedNil -> r <> RRef [] [] -> ref_of_strs (fst (strs_of r)) (snd (strs_of r)) = r.
 Proof. exact (ref_of_strs_of r). Qed.
-Theorem C12_envelope_absent : strs_of RAbsent = ([], []) /\ ref_of_strs [] [] = RAbsent.
-Proof. exact (conj eq_refl eq_refl). Qed.
+(** an absent ref — nil interface or typed nil pointer — travels as two empty strings and is read as absent *)
+Theorem C12_envelope_absent :
+  strs_of RAbsent = ([], []) /\ strs_of RTypedNil = ([], []) /\ ref_of_strs [] [] = RAbsent.
+Proof. exact (conj eq_refl (conj eq_refl eq_refl)). Qed.
 
 (** * handshake: the advertised address survives and nothing beyond the handshake is consumed *)
 Theorem C12_handshake addr rest :
